@@ -290,7 +290,11 @@ int evbuffer_remove(struct evbuffer *b, void *out, size_t n)
 static void vp_sink_move_raw(struct evbuffer *dst, struct evbuffer *src, size_t k)
 {
 #ifdef VP_SINK_BYTES
-	vp_sink_append_raw(dst, vp_sink_data[vp_sink_idx(src)], k);
+	/* (copy through a local array: a pointer into another row of the same 2-D object is mis-encoded by cbmc 6.11 --
+	 * the symbolic run produced a counterexample that neither its own concrete re-execution nor gcc reproduces) */
+	unsigned char tmp[VP_SINK_MAX]; size_t j; int si = vp_sink_idx(src);
+	for (j = 0; j < VP_SINK_MAX; j++) tmp[j] = vp_sink_data[si][j];
+	vp_sink_append_raw(dst, tmp, k);
 #else
 	vp_sink_append_raw(dst, NULL, k);
 #endif
